@@ -558,6 +558,28 @@ def local_reads(fn):
     return reads
 
 
+def only_dropped(fn, l, reads=None, depth=0):
+    """the value in local l is never looked at: it is not read at all (dropped where it goes out of scope), or only moved -- possibly
+    through temporaries -- into std::mem::drop"""
+    reads = reads if reads is not None else local_reads(fn)
+    if depth > 6:
+        return False
+    for bb, w in reads.get(l, []):
+        if w == "term":
+            t = fn.blocks[bb]["term"]
+            if t["k"] == "call" and M.callee_str(t["f"]) in ("std::mem::drop", "core::mem::drop") and len(t["args"]) == 1 and \
+                    t["args"][0]["k"] == "move" and t["args"][0]["p"]["l"] == l and not t["args"][0]["p"]["proj"]:
+                continue
+            return False
+        s = fn.blocks[bb]["stmts"][w]
+        r = s["r"]
+        if r["k"] == "use" and r["op"]["k"] == "move" and r["op"]["p"]["l"] == l and not r["op"]["p"]["proj"] and not s["p"]["proj"] and \
+                only_dropped(fn, s["p"]["l"], reads, depth + 1):
+            continue
+        return False
+    return True
+
+
 def discarded_results(fn):
     """call sites whose Result value is thrown away: the destination local (a Result, or the
     Option produced by `.ok()` / `.err()` on a Result) is never read"""
